@@ -7,3 +7,13 @@ import _ "embed"
 //
 //go:embed vsup.go.txt
 var VSup string
+
+// Mark is the helper package used by custom functions of generated programs.
+//
+//go:embed mark.go.txt
+var Mark string
+
+// VWrap is the recording wrapErrorsUsing package.
+//
+//go:embed vwrap.go.txt
+var VWrap string
